@@ -238,6 +238,9 @@ impl Cfg {
             }
         }
 
+        for (position, node) in nodes.iter().enumerate() {
+            node.set_position(position);
+        }
         Ok(Cfg {
             nodes,
             label_function_map: HashMap::new(),
@@ -260,11 +263,7 @@ impl Cfg {
     /// diagnostics they produce) do not depend on hash iteration order.
     fn in_source_order(nodes: &HashSet<Rc<CfgNode>>) -> Vec<Rc<CfgNode>> {
         let mut nodes = nodes.iter().cloned().collect::<Vec<_>>();
-        nodes.sort_by(|a, b| {
-            a.range()
-                .cmp(&b.range())
-                .then_with(|| a.file().cmp(&b.file()))
-        });
+        nodes.sort_by_key(|node| node.position());
         nodes
     }
 
